@@ -15,6 +15,7 @@ import (
 	"io"
 	"math/rand"
 	"os"
+	"sort"
 	"strconv"
 	"strings"
 	"sync"
@@ -146,7 +147,10 @@ func (c *dctl) fn(id string, buffered bool) getoptions.CommandFn {
 			}
 			return dag.ErrorSkipParents
 		}
-		switch variant % 4 {
+		switch variant % 5 {
+		case 4:
+			// a task that ran a sub-graph hands back that graph's *Errors value
+			return &dag.Errors{Msg: "sub-graph of " + id, Errors: []error{fmt.Errorf("inner: %w", errBoom), dag.ErrorTaskSkipped}}
 		case 1:
 			return fmt.Errorf("task %s: %w", id, errBoom)
 		case 2:
@@ -220,6 +224,12 @@ func classifyDagErr(e error) string {
 	case errors.Is(e, dag.ErrorTaskSkipped):
 		return "XSkipped " + taskOf(s)
 	case errors.Is(e, errBoom):
+		return "XTask " + taskOf(s)
+	case func() bool {
+		var inner *dag.Errors
+		return errors.As(e, &inner) && inner.Msg != "" && strings.HasPrefix(inner.Msg, "sub-graph of ")
+	}():
+		// the entry wraps the *Errors value a task handed back (errors.As reaches it)
 		return "XTask " + taskOf(s)
 	case strings.HasPrefix(s, "cancellation received"):
 		return "XCancel"
@@ -453,8 +463,77 @@ loop:
 	}
 	if obs.Hang {
 		obs.Oracle["C16"] = append(obs.Oracle["C16"], OracleHit{Key: "hang", What: "Run did not return although no task function is executing"})
+		obs.Oracle["C19"] = append(obs.Oracle["C19"], OracleHit{Key: "hang", What: "Graph.Run did not return although no task function is executing"})
+	}
+	ksum := 0
+	for _, ch := range obs.Key {
+		ksum += int(ch)
+	}
+	if !obs.Hang && ksum%3 == 0 && atomic.LoadInt64(&hangsSeen) < 12 {
+		secondRun(g, obs)
 	}
 	return obs
+}
+
+// secondRun - a graph is an object that can be extended and run again.  After the first Run has
+// returned, a new task is added that depends on a task of the first run, and Run is called again
+// (direct oracles, from the statements of C13 and C16): Run returns; the new task is entered exactly
+// once when its dependency returned nil in the first run and the first run succeeded; it is not
+// entered, and Run does not report success, when its dependency's last attempt failed.
+func secondRun(g *dag.Graph, obs *DagObs) {
+	last := map[string]string{}
+	for _, e := range obs.Events {
+		if e.Kind == "exit" {
+			last[e.ID] = e.R
+		}
+	}
+	ids := []string{}
+	for id := range last {
+		if _, ok := g.Vertices[dag.ID(id)]; ok {
+			ids = append(ids, id)
+		}
+	}
+	sort.Strings(ids)
+	dep, wantRun := "", false
+	for _, id := range ids {
+		if obs.ResultNil && last[id] == "nil" {
+			dep, wantRun = id, true
+			break
+		}
+		if !obs.ResultNil && last[id] != "nil" && last[id] != "skip" {
+			dep, wantRun = id, false
+			break
+		}
+	}
+	if dep == "" {
+		return
+	}
+	var entered int64
+	nt := dag.NewTask("zz-second-run", func(ctx context.Context, opt *getoptions.GetOpt, args []string) error {
+		atomic.AddInt64(&entered, 1)
+		return nil
+	})
+	g.TaskDependsOn(nt, g.Task(dep))
+	done := make(chan error, 1)
+	go func() { done <- g.Run(context.Background(), nil, nil) }()
+	var err error
+	select {
+	case err = <-done:
+	case <-time.After(3 * time.Second):
+		atomic.AddInt64(&hangsSeen, 1)
+		obs.Oracle["C16"] = append(obs.Oracle["C16"], OracleHit{Key: "hang-second-run",
+			What: fmt.Sprintf("after Run returned, task zz-second-run depending on %q was added; the second Run did not return within 3 s (entered %d times)", dep, atomic.LoadInt64(&entered))})
+		return
+	}
+	n := atomic.LoadInt64(&entered)
+	switch {
+	case wantRun && (n != 1 || err != nil):
+		obs.Oracle["C13"] = append(obs.Oracle["C13"], OracleHit{Key: "second-run",
+			What: fmt.Sprintf("first Run returned nil and %q returned nil; a task depending on it was added: the second Run entered it %d times and returned %v (want once, nil)", dep, n, err)})
+	case !wantRun && (n != 0 || err == nil):
+		obs.Oracle["C13"] = append(obs.Oracle["C13"], OracleHit{Key: "second-run",
+			What: fmt.Sprintf("the last attempt of %q failed in the first Run; a task depending on it was added: the second Run entered it %d times and returned %v (want never, an error)", dep, n, err)})
+	}
 }
 
 // checkBlocks - every attempt's three chunks <id.k.0><id.k.1><id.k.2> must be contiguous
